@@ -25,7 +25,11 @@ def run(ctx):
             "parse_range_over_40_cidrs", "overlap_true", "membership_probes",
             "dualclash_lengths_differ_in_none_rejected", "dualclash_lengths_differ_in_ipv4_only_rejected",
             "dualclash_lengths_differ_in_ipv6_only_rejected", "dualclash_lengths_differ_in_both_accepted",
-            "localpref_pairs_on_dualstack_pool", "route_probes_ipv4", "route_probes_ipv6"]
+            "localpref_pairs_on_dualstack_pool", "route_probes_ipv4", "route_probes_ipv6",
+            "overlap_equal_blocks", "overlap_net_from_range", "directed_accepted", "directed_rejected",
+            "directed_rejected: address entries share addresses", "directed_rejected: an aggregate leaves the address entry",
+            "directed_rejected: aggregation length beyond the address width", "directed_aggsweep_loose", "directed_aggsweep_tight"] + \
+           ["directed_notation_x%d_y%d" % (x, y) for x in range(4) for y in range(6)]
     if cases and not ctx.replay_in and not ctx.violations and not ctx.corr_broken and any(st.get(k, 0) == 0 for k in need):
         raise Exception("generator degenerate: %r" % st)
 
@@ -52,5 +56,5 @@ def run(ctx):
     ctx.assumptions += ["CRD admission (OpenAPI validation, webhooks) is not modelled: the theorems are about config.For on any resource set"]
     ctx.finish(len(cases), distinct,
                "snapshots with 1-5 pools (single-family and dual-stack; every 8th snapshot is a dual-stack pool with two advertisements of different local preference whose aggregation lengths differ in no / IPv4 only / IPv6 only / both families, with and without peer lists; CIDR, non-aligned CIDR, IPv4-mapped CIDR, ranges with spaces / mapped ends / crossing alignment boundaries, /31 /32, IPv6, top and bottom of the address space), namespace pinning, 1-5 L2/BGP advertisements (pool names, pool selectors, node selectors, aggregation lengths 0..33/0..129, local preferences, peers), nodes with internal IPs; "
-               "3n ParseCIDR strings over the whole address space; 2n cidrsOverlap pairs; non-trivial = accepted snapshot or successfully parsed address; distinct by JSON",
+               "96 directed notation layouts (CIDR / block-as-range / ragged ranges in one pool against an equal summarised block, a sub-CIDR, an overlapping range, an adjacent entry, a containing CIDR in the other pool, both orders, IPv4 and IPv6); 260 aggregation-sweep snapshots (aggregationLength 0..33 and aggregationLengthV6 0..129, each against entries at most / longer than the aggregation length, CIDR, mapped and block-as-range notation, dual-stack or two pools) with the converse oracle that a refused directed snapshot has a reason in the property; 3n ParseCIDR strings over the whole address space; 2n cidrsOverlap pairs; non-trivial = accepted snapshot or successfully parsed address; distinct by JSON",
                [c["in"] for c in fc[:3]], search=search)
